@@ -99,8 +99,12 @@ if os.path.exists(tf):
 bf = os.path.join(HERE, "seeded", "benign", "RESULT.quick.txt")
 out.append("**Benign changes** (must stay silent; `seeded/benign/N.diff`, written by a sub-agent asked for behaviour-preserving\n"
            "maintenance: a parser refactoring, reworded error messages, a different Bad-node skipping heuristic, a lexer fast\n"
-           "path, strings.Builder in sql.go, binary search in ResolvePos, a restructured split loop, a new exported helper).\n"
-           "Result of `tools/benign_run.sh quick` (all 20 checks per patch):\n")
+           "path, strings.Builder in sql.go, binary search in ResolvePos, a restructured split loop, a new exported helper;\n"
+           "17-24 are the correct counterparts of defects seeded in rounds 6-8: an ASCII fast path in skipSpaces, a length\n"
+           "guard in front of the keyword lookup, a pre-allocated traversal stack, fixed-message errors built by a helper that\n"
+           "returns a new *Error each time, expect() without the Clone, Position.String() without fmt, a shared\n"
+           "`expr.field` printing helper, a grown slice in the poslang interpreter).\n"
+           "Result of `tools/benign_run.sh quick` with the final harness (all 20 checks per patch):\n")
 if os.path.exists(bf):
     out.append("```")
     out.append(open(bf).read().rstrip())
